@@ -70,7 +70,7 @@ def run(tier, seed):
         v.sample({k: s[k] for k in ('kind', 'nout', 'times', 'sorted', 'nsamp', 'ncov', 'regimen', 'labels')})
     nt = v.counters.get('feat_unsorted_times', 0)
     if nt == 0 or v.counters.get('feat_repeated_times', 0) == 0:
-        raise MachineryError('vacuous run')
+        v.vacuous('vacuous run')
     cov = dict(states=out['run']['states'] + (out['srun']['states'] if out['srun'] else 0),
                transitions=out['run']['transitions'] + (out['srun']['transitions'] if out['srun'] else 0),
                traces_validated_against_impl=out['n'] + len(out['stage1']), evaluations=v.counters.get('evaluations', 0),
